@@ -15,7 +15,7 @@ ALPH = list(".texab01")
 IMPORTS = """From Coq Require Import NArith List Bool. Import ListNotations.
 From WV Require Import C15.Model.
 Open Scope N_scope.
-Definition enc (o : outcome) : list N := match o with Matched i k => [0; N.of_nat i; if k then 1 else 0] | NoRule => [1] | Panic => [2] end.
+Definition enc (o : outcome) : list N := match o with Matched i k => [0; N.of_nat i; if k then 1 else 0] | NoRule => [1] end.
 Definition R (p : list N) (f : option (list N)) (k : bool) : rule := {| pat := p; fpat := f; keep := k |}.
 Definition run (rs : list rule) (qs : list (list N * list N)) :=
   map (fun q => (enc (lookup rs (fst q) (snd q)), enc (first_match rs 0 (fst q) (snd q)))) qs.
@@ -102,7 +102,7 @@ def run(chk, replay=None):
                 cases.append(([tuple(r) for r in c["rules"]], [tuple(q) for q in c["queries"]]))
         n = 500 if chk.tier == "quick" else 6000
         for k in range(n):
-            minlit = 4 if rng.random() < 0.8 else 0       # mostly-valid stream + the short/odd stream
+            minlit = 4 if rng.random() < 0.6 else 0       # mostly-valid stream + the short/odd stream
             rules = []
             for _ in range(rng.randrange(1, 5)):
                 fp = rng.choice([None, None, None, "*", "a.o", "*b.o", "[ab].o"])
@@ -146,13 +146,7 @@ def run(chk, replay=None):
                     # recompute via model is done in Coq only for the first match; validate the pairwise relation lazily below
             if r == "PANIC":
                 stats["panic"] += 1
-                if short and "C15-short-prefix" in known:
-                    chk.known_hit("C15-short-prefix", rep)
-                else:
-                    chk.violation(f"section rule table construction panics for patterns {[p for p, f, k in rs]}", {"cases": [rep]})
-                if any(x[0] != [2] for x in m):
-                    stats["model_mismatch"] += 1
-                    chk.tie_break("model/implementation disagree (impl panics)", rep)
+                chk.violation(f"section rule table construction panics for patterns {[p for p, f, k in rs]}", {"cases": [rep]})
                 continue
             if r == "REJECT":
                 stats["reject"] += 1
@@ -181,9 +175,7 @@ def run(chk, replay=None):
                     stats["impl_eq_spec"] += 1
                 else:
                     fid = None
-                    if (short or len(n) < 4) and "C15-short-prefix" in known:
-                        fid = "C15-short-prefix"
-                    elif bs_glob and "C15-backslash-in-glob" in known:
+                    if bs_glob and "C15-backslash-in-glob" in known:
                         fid = "C15-backslash-in-glob"
                     elif odd_class:
                         continue       # outside the modelled pattern language
@@ -199,7 +191,7 @@ def run(chk, replay=None):
     chk.cov.update({
         "evaluations": stats["queries"] + stats["panic"] + stats["reject"], "distinct_nontrivial": nontrivial,
         "rule": "rule lists (1-4 rules: literal prefix 0-8 bytes, * ? [..] [!..] [^..] ranges, backslash escapes, optional file patterns, KEEP) with one instantiated name per rule + a random name; "
-                "80% of cases have >= 4 literal leading bytes; non-trivial = some rule fnmatch-es the query",
+                "60% of cases have >= 4 literal leading bytes; non-trivial = some rule fnmatch-es the query",
         "stats": stats, "samples": samples,
     })
     chk.assumptions = TRUSTED
